@@ -1,6 +1,6 @@
 (* C09 — every field governed by a marker is checked. *)
 From GV Require Import Base.Bytes Base.GoFloat GoLite.Syntax GoLite.Sem.
-From GV Require Import Gen.Decl Gen.Rules Gen.Template Gen.Spec Gen.Guard Gen.GenProofs1 Gen.GenProofs3 Gen.GenExact.
+From GV Require Import Gen.Decl Gen.Rules Gen.Template Gen.Spec Gen.Guard Gen.GenProofs1 Gen.Typed Gen.GenProofs2 Gen.GenProofs3 Gen.GenExact.
 
 (* no silent gap: if any written rule (every name of every field, nested structs included, struct-level
    markers pushed down to the fields they apply to) is violated, the generated validator does not return nil *)
@@ -25,3 +25,15 @@ Theorem C09_inapplicable_harmless : forall ipc tab r f t arg v,
   make_cond tab r f t arg = NoValidator -> has_type v t = true -> violated ipc tab r arg t v = None.
 Proof. intros. apply (cond_absent ipc tab r f t arg v); [intro c; congruence|assumption]. Qed.
 Print Assumptions C09_inapplicable_harmless.
+
+(* and for documented parameters the violated rule itself is in the report, with its Path, Type and Value *)
+Theorem C09_violated_rule_is_reported : forall ipc tab d f root w,
+  in_guard tab d = true -> params_ok tab d = true -> gen_file tab d = Some f -> wt_struct d root ->
+  In w (expected ipc tab d root) ->
+  exists es, report_of (o_res (exec_file ipc background f (Some root))) = Some es /\ In (projw w) es.
+Proof.
+  intros ipc tab d f root w G P Hf W Hin.
+  destruct (gen_exact_typed ipc tab d f root G P Hf W) as (_ & Hr & _).
+  eexists. split; [exact Hr|]. apply in_map. exact Hin.
+Qed.
+Print Assumptions C09_violated_rule_is_reported.
